@@ -330,15 +330,24 @@ def verdictEntry (s : S α) (w : W α) (ent : Entry α) (t : List String) : Stri
       match fe with
       | some _ => if implP != r (values w.fn.params) then "FAIL:raise_unchanged" else "ok"
       | none =>
-        -- the selection is well formed: no duplicate, only parameters of the wrapped function
-        let wf := w.vars.all (fun v => has w.fn.params v) && decide (w.vars.eraseDups.length = w.vars.length)
+        -- `transparent_on_raise`: the selection is well formed (no duplicate, only parameters of the
+        -- wrapped function) and the step is not 0: the only exception is the one of the cross
+        -- derivatives at a limit, and it leaves with everything restored
+        let wf := w.vars.all (fun v => has w.fn.params v) && decide (w.vars.eraseDups.length = w.vars.length) &&
+          !(eqb w.h zero)
         let sch := match w.scheme with
           | .two => "two"
           | .three => "three"
           | .five => "five"
-        if wf && implP != r (values fnB.params) then
-          "FAIL:transparent_on_raise_" ++ sch ++ "_" ++ ((t.headD "").drop 4).toString
-        else "ok"
+        let kind := ((t.headD "").drop 4).toString
+        if !wf then "ok"
+        else if implP != r (values fnB.params) then "FAIL:transparent_on_raise_" ++ sch ++ "_" ++ kind
+        else if field t "v=" != some fB || field t "fv=" != some fB then "FAIL:transparent_on_raise_value"
+        else if !(w.scheme == .three && w.cx && kind == "bpp") then "FAIL:one_sided_no_raise_" ++ sch ++ "_" ++ kind
+        else
+          let want1 := showBool (if w.fn.kind ≥ 1 then w.c1 else w.fn.en1)
+          let want2 := showBool (if w.fn.kind ≥ 2 then w.c2 else w.fn.en2)
+          if section_ t "E" markers != [want1, want2] then "FAIL:transparent_on_raise_flags" else "ok"
   if transparent != "ok" then transparent else
   -- after a call that returns, the analytical derivatives of the wrapped function are switched on
   -- exactly when the wrapper has the corresponding derivatives on (delegation_fresh)
@@ -389,9 +398,8 @@ def verdictEntry (s : S α) (w : W α) (ent : Entry α) (t : List String) : Stri
       -- the probes never leave [x - k*hh, x + k*hh]; intervals are convex, so end points suffice
       let k : α := if w.scheme == .five then two else one
       (feasibleAt iv.2 (x - k * hh) || feasibleAt iv.2 (x + k * hh)) && gtb w.h zero
-  let bad :=
-    if implOk then sel.any (fun iv => room iv && d1.getD iv.1 "nan" == "nan")
-    else !(w.scheme == .three && w.cx) && sel.all room
+  -- (a call that raises is judged above: `transparent_on_raise`)
+  let bad := implOk && sel.any (fun iv => room iv && d1.getD iv.1 "nan" == "nan")
   if bad then "FAIL:one_sided_fallback" else "ok"
 
 /-- delegation: a derivative of a non-selected variable (or with numerical derivatives switched
